@@ -320,6 +320,8 @@ func faultTable() []faultCase {
 	raw("CallNative/runtime-error-in-native-code", "OpCallNative", "go", "runtime error: invalid memory address or nil pointer dereference", true)
 	raw("CallNative/index-error-in-native-code", "OpCallNative", "go", "runtime error: index out of range [3] with length 1", true)
 	raw("Go/nil-func", "OpGo", "error", "fatal error: go of nil func value", false)
+	raw("Defer-native/panics-at-return", "OpReturn", "string", "native panic", false)
+	raw("CallNative/callback-panics", "OpCallNative", "panicerror", "", true)
 
 	mark := func(entry, sig, match string) {
 		for i := range t {
@@ -330,10 +332,9 @@ func faultTable() []faultCase {
 		}
 		panic("no entry " + entry)
 	}
-	mark("Defer-native/panics-while-unwinding", "host-panic:deferred-native-call-while-unwinding", "nil pointer dereference")
-	mark("Defer-native/stop-while-unwinding", "host-panic:deferred-native-call-while-unwinding", "nil pointer dereference")
-	mark("Defer-native/panics-at-return", "host-panic:deferred-native-panic-at-return", "native panic")
-	mark("CallNative/callback-panics", "host-panic:callback-panic-is-fatal", "cb")
+	// the three Defer-native entries were the known findings host-panic:deferred-native-call-while-unwinding
+	// and host-panic:deferred-native-panic-at-return: repaired by 6756254, they are regressions now
+	// CallNative/callback-panics was the known finding host-panic:callback-panic-is-fatal: repaired by 34a254c
 
 	// ---- templates
 	g := native.Declarations{"v": (*any)(nil), "s": (*string)(nil), "stop": hostDecls["Stop"], "fatal": hostDecls["Fatal"], "boom": hostDecls["PanicString"]}
